@@ -307,6 +307,133 @@ mod imp {
     }
 
     // --------------------------------------------------------------------------------------------
+    // isolated workers
+
+    const WORKER_AS_LIMIT: u64 = 6 << 30;
+    const CASE_CPU_SECS: u64 = 40;
+
+    /// `tyv worker-c02`: one JSON job per stdin line; `BEGIN i` / `END i <acc json>` on stdout.
+    pub fn worker_main() -> i32 {
+        use std::io::{BufRead, Write};
+        let stdin = std::io::stdin();
+        let stdout = std::io::stdout();
+        for (i, line) in stdin.lock().lines().enumerate() {
+            let Ok(line) = line else { break };
+            let Ok(v) = serde_json::from_str::<serde_json::Value>(&line) else { continue };
+            let case = Case::new(v["text"].as_str().unwrap_or(""), v["origin"].as_str().unwrap_or(""));
+            let cfgs: Vec<Cfg> = v["cfgs"].as_array().map(|a| a.iter().map(Cfg::from_json).collect()).unwrap_or_default();
+            // move the CPU limit forward: this case may use CASE_CPU_SECS more than what the process has used so far
+            unsafe {
+                let mut ts = libc::timespec { tv_sec: 0, tv_nsec: 0 };
+                libc::clock_gettime(libc::CLOCK_PROCESS_CPUTIME_ID, &mut ts);
+                let lim = libc::rlimit { rlim_cur: ts.tv_sec as u64 + CASE_CPU_SECS, rlim_max: libc::RLIM_INFINITY };
+                libc::setrlimit(libc::RLIMIT_CPU, &lim);
+            }
+            {
+                let mut o = stdout.lock();
+                let _ = writeln!(o, "BEGIN {}", i);
+                let _ = o.flush();
+            }
+            let mut acc = Acc::new();
+            run_case(&case, &cfgs, &mut acc);
+            let mut o = stdout.lock();
+            let _ = writeln!(o, "END {} {}", i, acc.to_json());
+            let _ = o.flush();
+        }
+        0
+    }
+
+    fn run_worker_on(jobs: &[(Case, Vec<Cfg>)]) -> (Acc, Option<usize>) {
+        // returns the merged accumulator of completed jobs and, if the worker died, the index of the job it died on
+        use std::io::{BufRead, BufReader, Write};
+        use std::os::unix::process::CommandExt;
+        use std::process::{Command, Stdio};
+        let exe = std::env::current_exe().unwrap();
+        let mut cmd = Command::new(exe);
+        cmd.arg("worker-c02").stdin(Stdio::piped()).stdout(Stdio::piped()).stderr(Stdio::null());
+        unsafe {
+            cmd.pre_exec(|| {
+                let lim = libc::rlimit { rlim_cur: WORKER_AS_LIMIT, rlim_max: WORKER_AS_LIMIT };
+                libc::setrlimit(libc::RLIMIT_AS, &lim);
+                Ok(())
+            });
+        }
+        let Ok(mut child) = cmd.spawn() else { return (Acc::new(), Some(0)) };
+        let mut stdin = child.stdin.take().unwrap();
+        let lines: Vec<String> = jobs
+            .iter()
+            .map(|(c, cfgs)| json!({"text": c.text, "origin": c.origin, "cfgs": cfgs.iter().map(|c| c.json()).collect::<Vec<_>>()}).to_string())
+            .collect();
+        let writer = std::thread::spawn(move || {
+            for l in lines {
+                if stdin.write_all(l.as_bytes()).is_err() || stdin.write_all(b"\n").is_err() {
+                    break;
+                }
+            }
+        });
+        let mut acc = Acc::new();
+        let mut pending: Option<usize> = None;
+        let mut done = 0usize;
+        for line in BufReader::new(child.stdout.take().unwrap()).lines() {
+            let Ok(line) = line else { break };
+            if let Some(rest) = line.strip_prefix("BEGIN ") {
+                pending = rest.trim().parse().ok();
+            } else if let Some(rest) = line.strip_prefix("END ") {
+                if let Some((_, js)) = rest.split_once(' ') {
+                    if let Ok(v) = serde_json::from_str::<serde_json::Value>(js) {
+                        acc.merge(Acc::from_json(&v));
+                    }
+                }
+                pending = None;
+                done += 1;
+            }
+        }
+        let _ = child.wait();
+        let _ = writer.join();
+        if done >= jobs.len() {
+            (acc, None)
+        } else {
+            (acc, Some(pending.unwrap_or(done)))
+        }
+    }
+
+    pub fn run_isolated(jobs: &[(Case, Vec<Cfg>)]) -> Acc {
+        use rayon::prelude::*;
+        let chunk = 40;
+        let accs: Vec<Acc> = jobs
+            .par_chunks(chunk)
+            .map(|ch| {
+                let mut total = Acc::new();
+                let mut start = 0usize;
+                let mut restarts = 0;
+                while start < ch.len() {
+                    let (acc, died) = run_worker_on(&ch[start..]);
+                    total.merge(acc);
+                    match died {
+                        None => break,
+                        Some(k) => {
+                            total.inconclusive("reference-compiler-exceeded-resource-limit(worker killed)");
+                            total.count("workers_killed_by_resource_limit", 1);
+                            start += k + 1;
+                            restarts += 1;
+                            if restarts > ch.len() {
+                                break;
+                            }
+                        }
+                    }
+                }
+                total.count("isolated_worker_processes", 1 + restarts as u64);
+                total
+            })
+            .collect();
+        let mut acc = Acc::new();
+        for a in accs {
+            acc.merge(a);
+        }
+        acc
+    }
+
+    // --------------------------------------------------------------------------------------------
     // G-TYGEN: typed program generator
 
     #[derive(Clone, Copy, PartialEq, Eq, Debug)]
@@ -585,10 +712,47 @@ mod imp {
             Part::new(pools::ws_pool(tygen_bases.clone()), 1500, 60_000, grid1.clone()),
             Part::new(pools::paren_pool(tygen_bases.clone()), 1500, 60_000, grid1.clone()),
         ];
-        let (mut acc, pm) = workload::run_parts(&parts, tier, seed, |part, case, rng, acc| {
-            let cfgs = workload::cfgs_for(&part.cfg, &case.text, tier, rng);
-            run_case(case, &cfgs, acc);
-        });
+        let parts: Vec<Part> = match std::env::var("TYV_ONLY_PART").ok().and_then(|s| s.parse::<usize>().ok()) {
+            Some(i) => parts.into_iter().enumerate().filter(|(k, _)| *k == i).map(|(_, p)| p).collect(),
+            None => parts,
+        };
+        // The reference compiler can need unbounded time or memory on a generated document (a table whose inset leaves no
+        // room, …). Compiles therefore run in worker processes under RLIMIT_AS and a per-case CPU limit; a case that kills
+        // its worker is inconclusive ("reference compiler exceeded its resource limit"), never a violation.
+        let mut acc = Acc::new();
+        let mut pm = vec![];
+        for (pi, part) in parts.iter().enumerate() {
+            let mut rng = Rng::new(seed ^ util::hash64(&part.pool.name()) ^ (pi as u64) << 32);
+            let want = match tier {
+                Tier::Quick => part.quick,
+                Tier::Thorough => part.thorough,
+                Tier::Full => usize::MAX,
+            };
+            let idx = pools::select(part.pool.len(), want, &mut rng);
+            let items: Vec<(usize, u64)> = idx.iter().map(|&i| (i, rng.next())).collect();
+            use rayon::prelude::*;
+            let jobs: Vec<(Case, Vec<Cfg>)> = items
+                .par_iter()
+                .filter_map(|&(i, s)| {
+                    let case = part.pool.get(i)?;
+                    let mut r = Rng::new(s);
+                    let cfgs = workload::cfgs_for(&part.cfg, &case.text, tier, &mut r);
+                    Some((case, cfgs))
+                })
+                .collect();
+            let rejected = items.len() - jobs.len();
+            let a = run_isolated(&jobs);
+            pm.push(json!({
+                "pool": part.pool.name(),
+                "pool_size": part.pool.len(),
+                "selected": idx.len(),
+                "evaluations": a.evaluations,
+                "violations_before_classification": a.violations.len(),
+                "rejected_by_admission": rejected,
+            }));
+            acc.count("rejected_by_admission", rejected as u64);
+            acc.merge(a);
+        }
         meta.pools = pm;
         meta.assumptions = vec![
             "typst 0.13.1 (compile + typst-render at 2 px/pt) is the reference semantics; rasters and document info are compared, not PDF bytes or introspection state".into(),
